@@ -84,8 +84,10 @@ Lemma wrap_spec vpt wait pts dts u : ((vpt =? 96) || (vpt =? 98))%Z = true -> u 
   Ok (if wait && negb (opens_gate vpt u) then (wait, []) else (false, [mk_psev vpt dts pts (sc4 ++ u)])).
 Proof.
   intros Hv Hu. destruct u as [|b t]; [congruence|]. unfold on_av_packet_wrap. cbn [pe_pt pe_payload]. rewrite Hv.
-  assert (lenN (sc4 ++ b :: t) <? 5 = false) as -> by (apply N.ltb_ge; rewrite lenN_app, lenN_cons; unfold lenN; cbn [sc4 length]; lia).
-  cbn [andb]. unfold idx. assert (4 <? lenN (sc4 ++ b :: t) = true) as -> by (apply N.ltb_lt; rewrite lenN_app, lenN_cons; unfold lenN; cbn [sc4 length]; lia).
+  cbn [andb].
+  assert (Hz : leading_zeros (sc4 ++ b :: t) + 1 = 4) by reflexivity. rewrite Hz.
+  assert (lenN (sc4 ++ b :: t) <=? 4 = false) as -> by (apply N.leb_gt; rewrite lenN_app, lenN_cons; unfold lenN; cbn [sc4 length]; lia).
+  unfold idx. assert (4 <? lenN (sc4 ++ b :: t) = true) as -> by (apply N.ltb_lt; rewrite lenN_app, lenN_cons; unfold lenN; cbn [sc4 length]; lia).
   change (N.to_nat 4) with 4%nat. cbn [sc4 app nth_error bind]. unfold opens_gate. cbn [hd].
   destruct wait; cbn [andb].
   - destruct (vpt =? 96)%Z.
